@@ -529,6 +529,7 @@ package dataflow
 // traversals' per-iteration clauses may therefore read the current node's fields at
 // the end of the iteration. Checked by a scan of every store in /repo.
 //@ property C01 C02 C03 C05 C13
+//@ immutable CallNodeArg.parent CallNode.parent
 //@ immutable VisitorNode.NodeWithTrace.Node VisitorNode.NodeWithTrace.Trace VisitorNode.NodeWithTrace.ClosureTrace VisitorNodeStatus.Kind VisitorNode.Prev VisitorNode.Depth
 
 // Assumed: the key of a visitor node is computed from the node without side effects
